@@ -100,6 +100,10 @@ pub struct SimState {
     pub in_shuttle: bool,
     pub log_yield_ppm: u32,
     pub yield_rng: Rng,
+    /// fault `heap_layout`: probability (ppm) of shuffling the allocator's small free lists
+    /// at a log site, and its own PRNG stream
+    pub heap_ppm: u32,
+    pub heap_rng: Rng,
     pub tasks: Vec<TaskState>,
     pub digest: u64,
     pub nevents: u64,
@@ -117,6 +121,8 @@ impl SimState {
             in_shuttle: false,
             log_yield_ppm: 0,
             yield_rng: Rng(0),
+            heap_ppm: 0,
+            heap_rng: Rng(0),
             tasks: Vec::new(),
             digest: FNV_OFFSET,
             nevents: 0,
@@ -474,6 +480,23 @@ pub fn hook_callback(e: prqlc::verif_hooks::Event) {
 
 pub const INJECTED_PANIC_MSG: &str = "VERIF injected panic at log site";
 
+/// Allocate a few blocks of small size classes and free some of them in a seeded order:
+/// the next allocations of those classes on this thread land elsewhere, and in another
+/// relative order, than they would have.
+pub fn shuffle_free_lists(seed: u64) {
+    let mut r = Rng::new(seed);
+    let n = r.range(2, 12);
+    let mut blocks: Vec<Option<Vec<u8>>> = (0..n).map(|i| Some(vec![i as u8; 8 * r.range(1, 12)])).collect();
+    let mut order: Vec<usize> = (0..n).collect();
+    r.shuffle(&mut order);
+    for i in order {
+        if r.below(4) != 0 {
+            blocks[i] = None;
+        }
+    }
+    std::mem::forget(blocks);
+}
+
 pub struct SimLogger;
 static LOGGER: SimLogger = SimLogger;
 static REAL_LOGGER: prqlc::debug::MessageLogger = prqlc::debug::MessageLogger;
@@ -488,6 +511,7 @@ impl log::Log for SimLogger {
     fn log(&self, record: &log::Record) {
         let task = cur_task();
         let (do_panic, do_yield, session, others_in_flight);
+        let mut heap_seed = None;
         {
             let mut st = state();
             if st.session_transition.contains(&task) {
@@ -519,6 +543,15 @@ impl log::Log for SimLogger {
             if session {
                 st.counters.session_records += 1;
             }
+            if st.heap_ppm > 0 {
+                let p = st.heap_ppm;
+                if st.heap_rng.ppm(p) {
+                    heap_seed = Some(st.heap_rng.next_u64());
+                }
+            }
+        }
+        if let Some(hs) = heap_seed {
+            shuffle_free_lists(hs);
         }
         if session {
             // What `prqlc compile --debug-log` wires: the real MessageLogger. It formats the
